@@ -52,10 +52,28 @@ class ImpMap:
 
 
 class SSet:
-    """list of distinct keys described by a predicate (result of a filter loop)"""
+    """list of distinct keys described by a predicate (result of a filter loop); `elem(k)` rebuilds the list element that
+    belongs to key k (the key itself, or a tuple carrying it)"""
 
-    def __init__(self, pred):
+    def __init__(self, pred, elem=None):
         self.pred = pred
+        self.elem = elem or (lambda k: Z(k))
+        self.nonempty = z3.Bool(f'nonempty!{id(self)}')
+        self.wit = z3.Int(f'wit!{id(self)}')
+        SX.ctx().assume(z3.Implies(self.nonempty, pred(self.wit)))
+        q = z3.Int('q!ne')
+        SX.ctx().assume(z3.Implies(z3.Not(self.nonempty), z3.ForAll([q], z3.Not(pred(q)))))
+
+    def __bool__(self):
+        return SX.ctx().branch(self.nonempty)
+
+    def any_element(self):
+        """an arbitrary element (over-approximates max / min / [0]): every element satisfies the predicate"""
+        c = SX.ctx()
+        c.require('an element is taken from a non-empty list', self.nonempty)
+        w = c.new_int('elem')
+        c.assume(self.pred(w))
+        return self.elem(w)
 
 
 class SymSelf:
@@ -99,7 +117,18 @@ def make_globals(c, real_globals):
         if isinstance(x, SSet):
             return fresh_nonneg(c, 'len')
         return len(x)
-    g.update(get_size=get_size, sum=ssum, len=slen)
+    import builtins as _b
+
+    def smax(x, *a, **k):
+        if isinstance(x, SSet) and not a:
+            return x.any_element()
+        return _b.max(x, *a, **k)
+
+    def smin(x, *a, **k):
+        if isinstance(x, SSet) and not a:
+            return x.any_element()
+        return _b.min(x, *a, **k)
+    g.update(get_size=get_size, sum=ssum, len=slen, max=smax, min=smin)
     return g
 
 
@@ -136,8 +165,13 @@ def eval_expr(node, glb, loc):
     return eval(code, glb, loc)
 
 
+class _Return(Exception):
+    """`return` reached at the top level of the function (not inside a loop body)"""
+
+
 class Driver:
     """Hoare-level driver over the statement list of cleanup_cache."""
+    depth = 0
 
     def __init__(self, c, s, glb, loops, dom0, la0, imp0):
         self.c, self.s, self.glb, self.loops = c, s, glb, loops
@@ -156,11 +190,15 @@ class Driver:
         i = 0
         seg = []
         for st in stmts:
-            if isinstance(st, (ast.For, ast.While, ast.If)):
+            if isinstance(st, (ast.For, ast.While, ast.If, ast.Return)):
                 if seg:
                     if not run_block(seg, self.glb, loc):
                         return False
                     seg = []
+                if isinstance(st, ast.Return):
+                    if self.depth:
+                        raise SX.PathAbort('return inside a loop body')
+                    raise _Return()
                 if isinstance(st, ast.If):
                     t = eval_expr(st.test, self.glb, loc)
                     if bool(t):
@@ -170,7 +208,12 @@ class Driver:
                         if not self.run_stmts(st.orelse, loc):
                             return False
                 else:
-                    self.loop(self.loops.index(st), st, loc)
+                    kind = self.classify(st, loc)
+                    self.depth += 1
+                    try:
+                        self.loop(kind, st, loc)
+                    finally:
+                        self.depth -= 1
             else:
                 seg.append(st)
         if seg:
@@ -178,55 +221,127 @@ class Driver:
                 return False
         return True
 
+    # -- which contract applies is decided by WHAT the loop iterates and does, not by its position or its local names
+    def classify(self, node, loc):
+        if isinstance(node, ast.While):
+            return 2
+        it = eval_expr(node.iter, self.glb, loc)
+        self.cur_iter = it
+        if isinstance(it, SSet):
+            return 1
+        if isinstance(it, SX.GenItems):
+            tnames = [n.id for n in ast.walk(node.target) if isinstance(n, ast.Name)]
+            key_name = tnames[0]
+            # fold (arg-max): some local defined before the loop is re-assigned from the loop key inside the body
+            carried = [n.targets[0].id for n in ast.walk(node) if isinstance(n, ast.Assign) and isinstance(n.targets[0], ast.Name)
+                       and isinstance(n.value, ast.Name) and n.value.id == key_name and n.targets[0].id in loc]
+            if carried:
+                self.argmax_name = carried[0]
+                # the running maximum: the other pre-existing local assigned in the same block as the arg-max
+                self.max_name = None
+                for blk in ast.walk(node):
+                    if isinstance(blk, ast.If):
+                        names_here = [a.targets[0].id for a in blk.body if isinstance(a, ast.Assign) and isinstance(a.targets[0], ast.Name)]
+                        if self.argmax_name in names_here:
+                            others = [n for n in names_here if n != self.argmax_name and n in loc]
+                            if others:
+                                self.max_name = others[0]
+                if self.max_name is None:
+                    raise SX.PathAbort('arg-max loop whose running maximum cannot be identified')
+                return 3
+            return 0
+        raise SX.PathAbort(f'loop over {type(it).__name__}: no contract')
+
     # -- loop contracts ------------------------------------------------------
     def loop(self, ordinal, node, loc):
         c, s = self.c, self.s
+        tnames = [n.id for n in ast.walk(node.target) if isinstance(n, ast.Name)] if isinstance(node, ast.For) else []
+        assigned = sorted({n.id for st_ in getattr(node, 'body', []) for n in ast.walk(st_) if isinstance(n, ast.Name) and isinstance(n.ctx, ast.Store)})
+
+        def carries(e, key):
+            if isinstance(e, Z):
+                return z3.eq(e.e, key)
+            if isinstance(e, (tuple, list)):
+                return any(carries(x, key) for x in e)
+            return False
+
+        def rebuild(e, key, q):
+            if isinstance(e, Z):
+                return Z(z3.substitute(e.e, (key, q)))
+            if isinstance(e, (tuple, list)):
+                return type(e)(rebuild(x, key, q) for x in e)
+            return e
         if ordinal == 0:
-            # foreach present key: body may only append the key to key_to_remove
+            # filter loop over the age table: the body may only append (an element carrying) the current key to local lists
             key = c.new_int('key')
             n0 = len(c.pc)
             c.assume(s.last_accessed.has(key))
             loc2 = dict(loc)
-            loc2['key'] = Z(key)
-            loc2['last_time'] = Z(z3.Select(s.last_accessed.val, key))
-            loc2['key_to_remove'] = list(loc['key_to_remove'])
+            loc2[tnames[0]] = Z(key)
+            if len(tnames) > 1:
+                loc2[tnames[1]] = Z(z3.Select(s.last_accessed.val, key))
+            lists = {n: v for n, v in loc.items() if type(v) is list}
+            if any(len(v) for v in lists.values()):
+                raise SX.PathAbort('filter loop starting from a non-empty list')
+            for n, v in lists.items():
+                loc2[n] = list(v)
             nd, nl = len(s.data.log), len(s.last_accessed.log)
             completed = self.run_stmts(node.body, loc2)
             c.require('loop 0: body does not break', z3.BoolVal(completed))
             c.require('loop 0: body does not modify data / last_accessed',
                       z3.BoolVal(len(s.data.log) == nd and len(s.last_accessed.log) == nl))
-            appended = loc2['key_to_remove'][len(loc['key_to_remove']):]
-            ok_shape = len(appended) <= 1 and all(isinstance(a, Z) and z3.eq(a.e, key) for a in appended)
+            grown = {n: loc2[n] for n in lists if type(loc2.get(n)) is list and len(loc2[n]) > 0}
+            ok_shape = all(len(v) <= 1 and carries(v[0], key) for v in grown.values()) and all(type(loc2.get(n)) is list for n in lists)
             c.require('loop 0: only the current key is appended, at most once', z3.BoolVal(ok_shape))
-            cond_here = z3.And(*c.pc[n0 + 1:]) if len(c.pc) > n0 + 1 else z3.BoolVal(True)
-            if appended:
+            if grown:
                 # (b) a frozen key is never selected
                 c.require('loop 0: a frozen key (importance 0) is never selected for removal',
                           s.var_importance.imp(key) != 0)
                 c.require('loop 0: a selected key was last used more than one calculation ago',
                           s.calculation_count.e - z3.Select(s.last_accessed.val, key) > 1)
             # summary: this path fixes whether the generic key is selected; the predicate over all keys is
-            # kept abstract (sel) with the facts just proved: sel(k) -> present(k) & importance(k) != 0
+            # kept abstract (sel) with the facts just proved: sel(k) -> present(k) & importance(k) != 0 & aged(k)
             del c.pc[n0:]
-            sel = z3.Function(f'selected!{next(c.fresh)}', K, z3.BoolSort())
-            q = z3.Int('k!s')
-            c.assume(z3.ForAll([q], z3.Implies(sel(q), z3.And(s.last_accessed.has(q), s.var_importance.imp(q) != 0,
-                                                           s.calculation_count.e - z3.Select(s.last_accessed.val, q) > 1))))
-            self.sel_justified = bool(appended) or True
-            loc['key_to_remove'] = SSet(sel)
-            for v in ('key', 'last_time', 'time_since_last_access', 'data_size', 'importance', 'strain'):
-                loc.pop(v, None)
+            for n in (grown or lists):
+                sel = z3.Function(f'selected!{next(c.fresh)}', K, z3.BoolSort())
+                q = z3.Int('k!s')
+                c.assume(z3.ForAll([q], z3.Implies(sel(q), z3.And(s.last_accessed.has(q), s.var_importance.imp(q) != 0,
+                                                               s.calculation_count.e - z3.Select(s.last_accessed.val, q) > 1))))
+                if n in grown:
+                    elem = (lambda kq, e=grown[n][0], key=key: rebuild(e, key, kq))
+                else:
+                    # this path did not append: the shape of the elements is read off the append expression in the source
+                    # (a tuple carrying the key at some position; the other components are arbitrary values)
+                    elem = None
+                    for nd_ in ast.walk(node):
+                        ex = None
+                        if isinstance(nd_, ast.Call) and isinstance(nd_.func, ast.Attribute) and nd_.func.attr == 'append' \
+                                and isinstance(nd_.func.value, ast.Name) and nd_.func.value.id == n and nd_.args:
+                            ex = nd_.args[0]
+                        if isinstance(nd_, ast.AugAssign) and isinstance(nd_.target, ast.Name) and nd_.target.id == n \
+                                and isinstance(nd_.value, ast.List) and len(nd_.value.elts) == 1:
+                            ex = nd_.value.elts[0]
+                        if isinstance(ex, ast.Tuple):
+                            pos = [i_ for i_, e_ in enumerate(ex.elts) if isinstance(e_, ast.Name) and e_.id == tnames[0]]
+                            if len(pos) == 1:
+                                elem = (lambda kq, ar=len(ex.elts), p_=pos[0]: tuple(Z(kq) if i_ == p_ else Z(z3.Real(f'comp!{next(c.fresh)}')) for i_ in range(ar)))
+                loc[n] = SSet(sel, elem)
+            for v in assigned + tnames:
+                if v not in lists:
+                    loc.pop(v, None)
             return
         if ordinal == 1:
-            S = loc['key_to_remove']
-            if not isinstance(S, SSet):
-                c.require('loop 1: iterates the list built by loop 0', z3.BoolVal(False))
-                return
+            S = self.cur_iter
             key = c.new_int('key')
             n0 = len(c.pc)
             c.assume(S.pred(key))
             loc2 = dict(loc)
-            loc2['key'] = Z(key)
+            el = S.elem(key)
+            if len(tnames) == 1:
+                loc2[tnames[0]] = el
+            else:
+                for nm_, v_ in zip(tnames, el):
+                    loc2[nm_] = v_
             d0, l0 = s.data.dom, s.last_accessed.dom
             nd, nl = len(s.data.log), len(s.last_accessed.log)
             completed = self.run_stmts(node.body, loc2)
@@ -260,9 +375,19 @@ class Driver:
             c.assume(self.rel())
             c.assume(I1(s))
             c.assume(s.card >= 0)
-            loc['total_cache_size'] = fresh_nonneg(c, 'total')
-            loc['nbr_keys_removed'] = fresh_nonneg(c, 'nbr')
-            loc['key_to_remove'] = Poisoned()
+            for v in assigned:
+                cur = loc.get(v)
+                if isinstance(cur, Z) and not isinstance(cur, KeyOrPoison):
+                    # a scalar carried round the loop (sizes, counters): any value of its sort after earlier iterations
+                    loc[v] = Z(z3.Real(f'{v}!{next(c.fresh)}') if z3.is_real(cur.e) else z3.Int(f'{v}!{next(c.fresh)}'))
+                    if v in ('total_cache_size', 'nbr_keys_removed') or (z3.is_int(cur.e) and z3.is_int_value(z3.simplify(cur.e)) and z3.simplify(cur.e).as_long() >= 0):
+                        c.assume(loc[v].e >= 0)
+                elif isinstance(cur, (int, float)) and not isinstance(cur, bool):
+                    loc[v] = Z(z3.Int(f'{v}!{next(c.fresh)}')) if isinstance(cur, int) else Z(z3.Real(f'{v}!{next(c.fresh)}'))
+                    if cur >= 0:
+                        c.assume(loc[v].e >= 0)
+                elif v in loc:
+                    loc[v] = Poisoned()          # lists / keys computed inside the body: not carried
             t = eval_expr(node.test, self.glb, loc)
             if not bool(t):
                 return          # loop exits: state satisfies the invariant
@@ -278,7 +403,7 @@ class Driver:
             return
         if ordinal == 3:
             # fold: InvF(ms, ktr): ms >= 0 & (ms > 0 -> present(ktr) & importance(ktr) != 0)
-            ms0 = loc['maxstrain']
+            ms0 = loc[self.max_name]
             c.require('loop 3 (fold): invariant holds initially (maxstrain = 0)', to_z3(ms0, real=True) >= 0)
             ms = z3.Real(f'maxstrain!{next(c.fresh)}')
             ktr = c.new_int('ktr')
@@ -290,13 +415,16 @@ class Driver:
             n0 = len(c.pc)
             c.assume(s.last_accessed.has(key))
             loc2 = dict(loc)
-            loc2.update(key=Z(key), last_time=Z(z3.Select(s.last_accessed.val, key)), maxstrain=Z(ms),
-                        key_to_remove=Z(ktr))
+            loc2[tnames[0]] = Z(key)
+            if len(tnames) > 1:
+                loc2[tnames[1]] = Z(z3.Select(s.last_accessed.val, key))
+            loc2[self.max_name] = Z(ms)
+            loc2[self.argmax_name] = Z(ktr)
             nd, nl = len(s.data.log), len(s.last_accessed.log)
             completed = self.run_stmts(node.body, loc2)
             c.require('loop 3 (fold): body does not break / modify the maps',
                       z3.BoolVal(completed and len(s.data.log) == nd and len(s.last_accessed.log) == nl))
-            ms1, k1 = loc2['maxstrain'], loc2['key_to_remove']
+            ms1, k1 = loc2[self.max_name], loc2[self.argmax_name]
             if not isinstance(k1, Z):
                 c.require('loop 3 (fold): key_to_remove stays a key', z3.BoolVal(False))
             else:
@@ -307,10 +435,11 @@ class Driver:
                                             s.calculation_count.e - z3.Select(s.last_accessed.val, k1.e) > 1)))
             del c.pc[n0:]
             # after the loop: the invariant, nothing else
-            loc['maxstrain'] = Z(ms)
-            loc['key_to_remove'] = KeyOrPoison(ms, ktr)
-            for v in ('key', 'last_time', 'time_since_last_access', 'importance', 'strain'):
-                loc.pop(v, None)
+            loc[self.max_name] = Z(ms)
+            loc[self.argmax_name] = KeyOrPoison(ms, ktr)
+            for v in assigned + tnames:
+                if v not in (self.max_name, self.argmax_name):
+                    loc.pop(v, None)
             return
         raise SX.PathAbort(f'no contract for loop {ordinal}')
 
@@ -382,8 +511,11 @@ def cleanup_paths(verbose):
         glb = make_globals(c, C.__dict__)
         drv = Driver(c, s, glb, loops, dom0, la0, imp0)
         loc = {'self': s}
-        drv.run_stmts(tree.body[1:] if isinstance(tree.body[0], ast.Expr) else tree.body, loc)
-        # postconditions
+        try:
+            drv.run_stmts(tree.body[1:] if isinstance(tree.body[0], ast.Expr) else tree.body, loc)
+        except _Return:
+            pass
+        # postconditions (also at an early return)
         k = z3.Int('k!post')
         c.require('post: age table describes only cached entries (last_accessed keys subset of data keys)', I1(s))
         c.require('post: frozen entries present before are present after',
